@@ -757,6 +757,19 @@ def run(tier):
               'no function of the tree core that applies a simplification recurses over the nesting depth (directly, through helpers, generators, tuple comparison, deepcopy or the generic pickler)',
               [('nodes', 'substitute'), ('nodes', 'Node.__eq__'), ('nodes', 'Node.__hash__')],
               'substitute raises RecursionError for deep terms: the designated subtrees are not replaced')
+    # identities are unique after re-duplication (shared with C13.R2-R4)
+    sub13b = Check('C13', 'other', tier, [], [])
+    chk.guard(c13.rule_r234, sub13b, prog)
+    chk.adopt('C11.R13', 're-duplication gives every position its own '
+              'identity (a rebuilt child is detected by identity, not by '
+              'structural equality), so "the one occurrence carrying a given '
+              'identity" exists (shared with C13.R2-R4)', sub13b)
+    from . import c15 as _c15
+    sub15 = Check('C15', 'other', tier, [], [])
+    chk.guard(_c15.rule_r13, sub15, prog)
+    chk.adopt('C11.R14', 'the declarations inserted are the requested ones: '
+              'no record shares a mutable default between simplifications '
+              '(shared with C15.R13)', sub15)
     extra = None
     if tier == 'thorough':
         from .. import selftest
